@@ -23,6 +23,7 @@ pub struct RunOutput {
     pub sim_blocks: u64,
     pub sim_seconds: u64,
     pub faulty_cfg: bool,
+    pub sched: BTreeMap<&'static str, u64>,
 }
 
 fn finish<W: World>(w: W, trace: Trace, violations: Vec<Violation>, prop: &str) -> RunOutput {
@@ -32,7 +33,33 @@ fn finish<W: World>(w: W, trace: Trace, violations: Vec<Violation>, prop: &str) 
         lh.str(&v.class);
         lh.u64(v.step as u64);
     }
+    let mut sched: BTreeMap<&'static str, u64> = BTreeMap::new();
+    {
+        let st = &trace.steps;
+        for (i, s) in st.iter().enumerate() {
+            let is_tx = |x: &Step| matches!(x, Step::Tx { .. } | Step::Ibc { .. } | Step::CanExec { .. } | Step::Bank { .. } | Step::Migrate { .. });
+            if is_tx(s) && i > 0 && is_tx(&st[i - 1]) {
+                *sched.entry("txs_sharing_a_block_with_the_previous_tx").or_insert(0) += 1;
+            }
+            if let Step::Block { dh, dt } = s {
+                *sched.entry("block_cuts").or_insert(0) += 1;
+                if *dh >= 100 || *dt >= 100_000 {
+                    *sched.entry("large_clock_jumps").or_insert(0) += 1;
+                }
+                if *dh > 0 && *dt == 0 {
+                    *sched.entry("height_advances_with_frozen_time").or_insert(0) += 1;
+                }
+            }
+            if matches!(s, Step::Tx { .. }) && st[..i].iter().rev().take(6).any(|p| p == s) {
+                *sched.entry("duplicate_tx_deliveries").or_insert(0) += 1;
+            }
+            if let Step::Tx { fault: Some(_), .. } | Step::Ibc { fault: Some(_), .. } = s {
+                *sched.entry("faults_armed").or_insert(0) += 1;
+            }
+        }
+    }
     RunOutput {
+        sched,
         faulty_cfg: trace
             .config
             .get("faults")
@@ -61,7 +88,18 @@ pub fn run_generated<W: World>(prop: &str, mon: &str, seed: u64, run: u64, thoro
     let mut steps = vec![];
     let mut viols = vec![];
     for _ in 0..n {
-        let s = w.gen_step(&mut rng);
+        // F2: a user retries — an earlier transaction is delivered again, unchanged
+        let dup = rng.chance(1, 16);
+        let recent: Vec<&Step> = steps.iter().rev().take(6).filter(|s: &&Step| matches!(s, Step::Tx { .. })).collect();
+        let s = if dup && !recent.is_empty() {
+            let pick = rng.below(recent.len() as u64) as usize;
+            match recent[pick].clone() {
+                Step::Tx { sender, target, msg, funds, script, .. } => Step::Tx { sender, target, msg, funds, fault: None, script },
+                other => other,
+            }
+        } else {
+            w.gen_step(&mut rng)
+        };
         w.apply(&s, &mut viols);
         steps.push(s);
         if !viols.is_empty() {
@@ -303,7 +341,52 @@ pub struct RunSummary {
     pub out: RunOutput,
 }
 
-pub fn run_batch(cfg: &BatchCfg) -> Vec<RunSummary> {
+
+/// order-independent aggregate over all runs of a batch (kept small: traces of clean runs are dropped)
+#[derive(Default)]
+pub struct Agg {
+    pub runs: u64,
+    pub nontrivial_runs: u64,
+    pub faulty: u64,
+    pub sigs: BTreeSet<u64>,
+    pub states: BTreeSet<u64>,
+    pub transitions: BTreeSet<u64>,
+    pub probes: BTreeMap<String, u64>,
+    pub stats: BTreeMap<String, u64>,
+    pub sched: BTreeMap<String, u64>,
+    pub blocks: u64,
+    pub seconds: u64,
+    pub steps: u64,
+}
+
+impl Agg {
+    pub fn add(&mut self, o: &RunOutput) {
+        self.runs += 1;
+        if o.nontrivial {
+            self.nontrivial_runs += 1;
+            self.sigs.insert(o.signature);
+        }
+        if o.faulty_cfg {
+            self.faulty += 1;
+        }
+        self.states.extend(o.states.iter());
+        self.transitions.extend(o.transitions.iter());
+        for (k, v) in &o.probes {
+            *self.probes.entry(k.to_string()).or_insert(0) += v;
+        }
+        for (k, v) in &o.stats {
+            *self.stats.entry(k.to_string()).or_insert(0) += v;
+        }
+        for (k, v) in &o.sched {
+            *self.sched.entry(k.to_string()).or_insert(0) += v;
+        }
+        self.blocks = self.blocks.saturating_add(o.sim_blocks);
+        self.seconds = self.seconds.saturating_add(o.sim_seconds);
+        self.steps += o.trace.steps.len() as u64;
+    }
+}
+
+pub fn run_batch(cfg: &BatchCfg, keep_first: usize) -> (Vec<RunSummary>, Agg) {
     let worlds = world_of(&cfg.prop);
     let thorough = cfg.tier == "thorough";
     let mut jobs: Vec<(String, u64)> = vec![];
@@ -314,7 +397,7 @@ pub fn run_batch(cfg: &BatchCfg) -> Vec<RunSummary> {
         }
     }
     let next = AtomicUsize::new(0);
-    let results: Mutex<Vec<Option<RunSummary>>> = Mutex::new((0..jobs.len()).map(|_| None).collect());
+    let results: Mutex<(Vec<Option<RunSummary>>, Agg)> = Mutex::new(((0..jobs.len()).map(|_| None).collect(), Agg::default()));
     std::thread::scope(|s| {
         for _ in 0..cfg.threads.max(1) {
             s.spawn(|| loop {
@@ -324,16 +407,21 @@ pub fn run_batch(cfg: &BatchCfg) -> Vec<RunSummary> {
                 }
                 let (w, r) = &jobs[i];
                 let out = gen_in(w, &cfg.prop, &cfg.mon, cfg.seed, *r, thorough);
-                let sum = RunSummary {
-                    world: w.clone(),
-                    run: *r,
-                    out,
-                };
-                results.lock().unwrap()[i] = Some(sum);
+                let keep = i < keep_first || !out.violations.is_empty();
+                let mut g = results.lock().unwrap();
+                g.1.add(&out);
+                if keep {
+                    g.0[i] = Some(RunSummary {
+                        world: w.clone(),
+                        run: *r,
+                        out,
+                    });
+                }
             });
         }
     });
-    results.into_inner().unwrap().into_iter().map(|x| x.unwrap()).collect()
+    let (v, agg) = results.into_inner().unwrap();
+    (v.into_iter().flatten().collect(), agg)
 }
 
 pub fn hex(v: u64) -> String {
@@ -366,42 +454,15 @@ pub fn evidence_json(
     level: &str,
     rule: &str,
     sums: &[RunSummary],
+    agg: &Agg,
     violations: usize,
     known: &BTreeMap<String, u64>,
     wall: f64,
     determinism: &str,
     extra: Value,
 ) -> Value {
-    let mut sigs: BTreeSet<u64> = BTreeSet::new();
-    let mut states: BTreeSet<u64> = BTreeSet::new();
-    let mut transitions: BTreeSet<u64> = BTreeSet::new();
-    let mut probes: BTreeMap<String, u64> = BTreeMap::new();
-    let mut stats: BTreeMap<String, u64> = BTreeMap::new();
-    let mut nontrivial_runs = 0u64;
-    let mut faulty = 0u64;
-    let mut blocks = 0u64;
-    let mut seconds = 0u64;
-    let mut steps = 0u64;
-    for s in sums {
-        if s.out.nontrivial {
-            nontrivial_runs += 1;
-            sigs.insert(s.out.signature);
-        }
-        if s.out.faulty_cfg {
-            faulty += 1;
-        }
-        states.extend(s.out.states.iter());
-        transitions.extend(s.out.transitions.iter());
-        for (k, v) in &s.out.probes {
-            *probes.entry(k.to_string()).or_insert(0) += v;
-        }
-        for (k, v) in &s.out.stats {
-            *stats.entry(k.to_string()).or_insert(0) += v;
-        }
-        blocks = blocks.saturating_add(s.out.sim_blocks);
-        seconds = seconds.saturating_add(s.out.sim_seconds);
-        steps += s.out.trace.steps.len() as u64;
-    }
+    let stats = &agg.stats;
+    let probes = &agg.probes;
     let txs = stats.get("tx_ok").cloned().unwrap_or(0) + stats.get("tx_failed").cloned().unwrap_or(0);
     let samples: Vec<Value> = sums
         .iter()
@@ -421,7 +482,7 @@ pub fn evidence_json(
         samples
     };
     let zero_probes: Vec<String> = probes.iter().filter(|(_, v)| **v == 0).map(|(k, _)| k.clone()).collect();
-    let runs = sums.len() as u64;
+    let runs = agg.runs;
     json!({
         "property_id": cfg.prop,
         "tier": cfg.tier,
@@ -429,17 +490,17 @@ pub fn evidence_json(
         "level": level,
         "coverage": {
             "evaluations": runs,
-            "distinct_nontrivial": sigs.len(),
+            "distinct_nontrivial": agg.sigs.len(),
             "rule": rule,
             "samples": samples,
-            "states": states.len(),
-            "transitions": transitions.len(),
-            "nontrivial_runs": nontrivial_runs,
-            "steps_executed": steps,
+            "states": agg.states.len(),
+            "transitions": agg.transitions.len(),
+            "nontrivial_runs": agg.nontrivial_runs,
+            "steps_executed": agg.steps,
             "transactions": txs,
             "committed_ratio": if txs > 0 { stats.get("tx_ok").cloned().unwrap_or(0) as f64 / txs as f64 } else { 0.0 },
-            "fault_free_runs": runs - faulty,
-            "fault_injecting_runs": faulty,
+            "fault_free_runs": runs - agg.faulty,
+            "fault_injecting_runs": agg.faulty,
             "faults_fired": {
                 "sub_call_failed_early": stats.get("fault_early_fired").cloned().unwrap_or(0),
                 "sub_call_failed_late": stats.get("fault_late_fired").cloned().unwrap_or(0),
@@ -448,10 +509,11 @@ pub fn evidence_json(
                 "abort_inside_contract": stats.get("abort_in_contract").cloned().unwrap_or(0),
                 "abort_outside_contract": stats.get("abort_outside_contract").cloned().unwrap_or(0),
             },
+            "schedule_events": agg.sched,
             "reach_probes": probes,
             "probes_at_zero": zero_probes,
-            "simulated_blocks": blocks,
-            "simulated_seconds": seconds,
+            "simulated_blocks": agg.blocks,
+            "simulated_seconds": agg.seconds,
             "runs_per_hour": if wall > 0.0 { (runs as f64 / wall * 3600.0) as u64 } else { 0 },
             "seeds_per_hour": if wall > 0.0 { (runs as f64 / wall * 3600.0) as u64 } else { 0 },
             "determinism_selfcheck": determinism,
@@ -475,3 +537,97 @@ pub fn evidence_json(
 
 #[allow(dead_code)]
 pub fn unused(_: &Rng) {}
+
+// ------------------------------------------------------------------------------------------
+// systematic single-fault sweep over sampled fault-free traces
+
+pub struct SweepStats {
+    pub traces: u64,
+    pub sites: u64,
+    pub reexecutions: u64,
+}
+
+fn sites_of<W: World>(trace: &Trace, mon: &str) -> Vec<(usize, String, u32)> {
+    let mut w = W::build(&trace.config, mon);
+    let mut viols = vec![];
+    let mut out = vec![];
+    for (i, s) in trace.steps.iter().enumerate() {
+        w.apply(s, &mut viols);
+        if matches!(s, Step::Tx { .. } | Step::Ibc { .. }) {
+            for (t, n) in w.chain().last_sites() {
+                for k in 1..=n {
+                    out.push((i, t.clone(), k));
+                }
+            }
+        }
+        if !viols.is_empty() {
+            break;
+        }
+    }
+    out
+}
+
+pub fn sites_in(trace: &Trace, mon: &str) -> Vec<(usize, String, u32)> {
+    match trace.world.as_str() {
+        "A" => sites_of::<crate::world_a::WorldA>(trace, mon),
+        "B" => sites_of::<crate::world_b::WorldB>(trace, mon),
+        "C" => sites_of::<crate::world_c::WorldC>(trace, mon),
+        "D" => sites_of::<crate::world_d::WorldD>(trace, mon),
+        _ => vec![],
+    }
+}
+
+/// re-execute each trace once per (dispatch site x {early, late}); returns violating runs
+pub fn sweep(traces: &[Trace], mon: &str, threads: usize, max_per_trace: usize) -> (Vec<RunOutput>, SweepStats) {
+    use crate::chain::{Fault, FaultMode};
+    let mut jobs: Vec<Trace> = vec![];
+    let mut stats = SweepStats { traces: 0, sites: 0, reexecutions: 0 };
+    for t in traces {
+        // strip existing faults: the sweep wants exactly one
+        let mut base = t.clone();
+        for s in base.steps.iter_mut() {
+            match s {
+                Step::Tx { fault, .. } => *fault = None,
+                Step::Ibc { fault, .. } => *fault = None,
+                _ => {}
+            }
+        }
+        let sites = sites_in(&base, mon);
+        stats.traces += 1;
+        stats.sites += sites.len() as u64;
+        // spread evenly if there are too many
+        let stride = (sites.len() * 2 / max_per_trace.max(1)).max(1);
+        for (j, (i, target, k)) in sites.into_iter().enumerate() {
+            if j % stride != 0 {
+                continue;
+            }
+            for mode in [FaultMode::Early, FaultMode::Late] {
+                let mut tt = base.clone();
+                let f = Some(Fault { target: target.clone(), nth: k, mode });
+                match &mut tt.steps[i] {
+                    Step::Tx { fault, .. } => *fault = f,
+                    Step::Ibc { fault, .. } => *fault = f,
+                    _ => {}
+                }
+                jobs.push(tt);
+            }
+        }
+    }
+    stats.reexecutions = jobs.len() as u64;
+    let next = AtomicUsize::new(0);
+    let results: Mutex<Vec<Option<RunOutput>>> = Mutex::new((0..jobs.len()).map(|_| None).collect());
+    std::thread::scope(|s| {
+        for _ in 0..threads.max(1) {
+            s.spawn(|| loop {
+                let i = next.fetch_add(1, Ordering::SeqCst);
+                if i >= jobs.len() {
+                    break;
+                }
+                let out = replay_in(&jobs[i], mon);
+                results.lock().unwrap()[i] = Some(out);
+            });
+        }
+    });
+    let outs: Vec<RunOutput> = results.into_inner().unwrap().into_iter().map(|x| x.unwrap()).collect();
+    (outs, stats)
+}
